@@ -38,7 +38,10 @@ def make_potential(case, gpts=None):
         kw["gpts"] = tuple(case["gpts0"])
     else:
         kw["sampling"] = tuple(case["sampling0"])
-    return abtem.Potential(make_atoms(case), **kw)
+    atoms = make_atoms(case)
+    if case.get("phonons"):  # frozen-phonon ensemble (conformance only): eager builds deep-copy the integrator per block
+        atoms = abtem.FrozenPhonons(atoms, num_configs=len(case["phonons"]), sigmas=0.05, seed=tuple(case["phonons"]))
+    return abtem.Potential(atoms, **kw)
 
 
 def apply_op(pot, op):
@@ -214,7 +217,7 @@ class C11(Property):
         # a cache shared between species must not mix them up: the potential of all atoms is the sum of the
         # single-species potentials, each built with its own fresh integrator
         species = sorted(set(case["symbols"]))
-        if len(species) > 1:
+        if len(species) > 1 and not case.get("phonons"):  # (random displacements depend on the atom count: no split for phonons)
             whole = np.asarray(make_potential(case).build(lazy=False).array)
             parts = 0
             for sp in species:
@@ -253,14 +256,33 @@ class C11(Property):
                 if built_before:
                     last_change = op[0]
 
+    DIRECTED = [  # grid changes that keep one component of gpts / sampling (a key that forgets the other one is exposed)
+        [["build", "eager"], ["gpts", [8, 12]], ["build", "eager"]],
+        [["build", "eager"], ["gpts", [12, 8]], ["build", "eager"]],
+        [["build", "eager"], ["sampling", [0.5, 0.25]], ["build", "eager"]],
+        [["build", "eager"], ["sampling", [0.25, 0.5]], ["build", "lazy"]],
+        [["build", "lazy"], ["gpts", [16, 8]], ["build", "eager"], ["gpts", [8, 16]], ["build", "eager"]],
+    ]
+
     def conformance(self, ctx: Ctx):
+        for proj in ("infinite", "finite"):
+            for ops in self.DIRECTED:
+                c = gen_case(ctx, projection=proj)
+                c.pop("sampling0", None)
+                c["gpts0"] = [8, 8]
+                c["ops"] = [list(o) for o in ops]
+                self.oracle(ctx, c)
+                ctx.case(c)
+                ctx.count(f"conf:{proj}:directed")
         for i in range(ctx.n(36, 400)):
             c = gen_case(ctx, projection="finite" if i % 3 == 0 else "infinite")
+            if i % 5 == 1:
+                c["phonons"] = [ctx.rng.randint(0, 10 ** 6) for _ in range(ctx.rng.randint(1, 3))]
             if i % 4 == 0:  # "or used in a simulation"
                 c["ops"] = [["simulate"] if (o[0] == "build" and ctx.rng.random() < 0.5) else o for o in c["ops"]]
             self.oracle(ctx, c)
             ctx.case(c)
-            ctx.count(f"conf:{c['projection']}:{'sim' if any(o[0] == 'simulate' for o in c['ops']) else 'build'}")
+            ctx.count(f"conf:{c['projection']}:{'sim' if any(o[0] == 'simulate' for o in c['ops']) else 'build'}:{'phonons' if c.get('phonons') else 'atoms'}")
 
     def replay(self, ctx: Ctx, case):
         self.oracle(ctx, case)
